@@ -599,52 +599,57 @@ def run_check(pid, tier="quick", seed=None, replay=None):
         else:
             groups = chk["gen"](rng, tier)
         model_exe = os.path.join(OBUILD, chk["driver"]) if chk.get("driver") else None
-        for gname, cases in groups:
-            if not cases:
-                continue
-            res.stats[gname] = len(cases)
-            impl_out, ierr = (run_lines(exe, cases, timeout=chk.get("run_timeout", 900)) if exe else ([], "no harness"))
-            model_out, merr = (run_lines(model_exe, cases, timeout=chk.get("run_timeout", 900))
-                               if (model_exe and ok) else ([], "no model"))
-            if ierr and exe:
-                # the implementation harness died: find the case it dies on (a concrete failing input) by running the
-                # cases after the last line it managed to print one at a time
-                found = None
-                start = max(0, len(impl_out) - 1)
-                for c in cases[start:start + 60]:
-                    rc1, o1, e1 = sh([exe], inp=c + "\n", timeout=60)
-                    if rc1 != 0:
-                        found = (c, rc1, e1)
-                        break
-                if found:
-                    res.oracle_failures.append({"case": found[0], "impl": "exit status %s; %s" % (found[1], found[2][-600:]), "model": None,
-                                                "key": "crash", "group": gname,
-                                                "msg": "the implementation crashes / aborts on this case (exit status %s): %s"
-                                                       % (found[1], found[2].strip().splitlines()[-1][:200] if found[2].strip() else "")})
-                else:
-                    res.tie_failures.append(("harness-run", "%s: %s" % (gname, ierr)))
-            if merr and model_exe and ok:
-                res.tie_failures.append(("model-run", "%s: %s" % (gname, merr)))
-            for i, case in enumerate(cases):
-                il = impl_out[i] if i < len(impl_out) else None
-                ml = model_out[i] if i < len(model_out) else None
-                res.evaluations += 1
-                if il is None:
-                    if exe and not ierr:
-                        res.tie_failures.append(("harness-run", "no output for case %r" % case))
+        def run_groups(groups, with_model=True, prefix=""):
+            """run the implementation (and the model) on the groups; compare; evaluate the property oracle"""
+            for gname, cases in groups:
+                if not cases:
                     continue
-                if ml is not None:
-                    why = chk["compare"](case, il, ml) if chk.get("compare") else compare_tokens(il, ml, chk.get("rtol", 0.0), chk.get("atol", 0.0))
-                    if why:
-                        res.mismatches.append({"case": case, "impl": il, "model": ml, "why": why, "group": gname})
-                for fail in (chk["oracle"](case, il) or []):
-                    key, msg = fail
-                    res.oracle_failures.append({"case": case, "impl": il, "model": ml, "key": key, "msg": msg, "group": gname})
-                nt = chk["nontrivial"](case, il) if chk.get("nontrivial") else case
-                if nt:
-                    res.nontrivial.add(nt if isinstance(nt, str) else case)
-                if len(res.samples) < 6 and i % max(1, len(cases) // 3) == 0:
-                    res.samples.append({"group": gname, "case": case[:400], "impl": il[:400], "model": (ml or "")[:400]})
+                gname = prefix + gname
+                res.stats[gname] = len(cases)
+                impl_out, ierr = (run_lines(exe, cases, timeout=chk.get("run_timeout", 900)) if exe else ([], "no harness"))
+                model_out, merr = (run_lines(model_exe, cases, timeout=chk.get("run_timeout", 900))
+                                   if (model_exe and ok and with_model) else ([], "no model"))
+                if ierr and exe:
+                    # the implementation harness died: find the case it dies on (a concrete failing input) by running the
+                    # cases after the last line it managed to print one at a time
+                    found = None
+                    start = max(0, len(impl_out) - 1)
+                    for c in cases[start:start + 60]:
+                        rc1, o1, e1 = sh([exe], inp=c + "\n", timeout=60)
+                        if rc1 != 0:
+                            found = (c, rc1, e1)
+                            break
+                    if found:
+                        res.oracle_failures.append({"case": found[0], "impl": "exit status %s; %s" % (found[1], found[2][-600:]), "model": None,
+                                                    "key": "crash", "group": gname,
+                                                    "msg": "the implementation crashes / aborts on this case (exit status %s): %s"
+                                                           % (found[1], found[2].strip().splitlines()[-1][:200] if found[2].strip() else "")})
+                    else:
+                        res.tie_failures.append(("harness-run", "%s: %s" % (gname, ierr)))
+                if merr and model_exe and ok and with_model:
+                    res.tie_failures.append(("model-run", "%s: %s" % (gname, merr)))
+                for i, case in enumerate(cases):
+                    il = impl_out[i] if i < len(impl_out) else None
+                    ml = model_out[i] if i < len(model_out) else None
+                    res.evaluations += 1
+                    if il is None:
+                        if exe and not ierr:
+                            res.tie_failures.append(("harness-run", "no output for case %r" % case))
+                        continue
+                    if ml is not None:
+                        why = chk["compare"](case, il, ml) if chk.get("compare") else compare_tokens(il, ml, chk.get("rtol", 0.0), chk.get("atol", 0.0))
+                        if why:
+                            res.mismatches.append({"case": case, "impl": il, "model": ml, "why": why, "group": gname})
+                    for fail in (chk["oracle"](case, il) or []):
+                        key, msg = fail
+                        res.oracle_failures.append({"case": case, "impl": il, "model": ml, "key": key, "msg": msg, "group": gname})
+                    nt = chk["nontrivial"](case, il) if chk.get("nontrivial") else case
+                    if nt:
+                        res.nontrivial.add(nt if isinstance(nt, str) else case)
+                    if len(res.samples) < 6 and i % max(1, len(cases) // 3) == 0:
+                        res.samples.append({"group": gname, "case": case[:400], "impl": il[:400], "model": (ml or "")[:400]})
+
+        run_groups(groups)
         # thorough tier: independent re-check of the compiled proofs, and a sanitizer build of the harness
         if tier == "thorough" and not replay:
             if coq["ok"]:
@@ -691,9 +696,24 @@ def run_check(pid, tier="quick", seed=None, replay=None):
                     res.samples += item.get("samples", [])[:3]
         if coq["obligations"] == 0:
             res.tie_failures.append(("proof", "no theorem found in %s.v" % chk.get("coq", "Properties_" + pid)))
-        # 6. verdict
         kfs = load_known_findings(pid)
         open_keys = {k["key"]: k for k in kfs if k.get("status") == "open"}
+        # a broken tie (proof, translator, correspondence) with no failing input yet: search harder for a concrete input on
+        # which the property fails — the thorough generators with further seeds, implementation + oracle only
+        if tier == "quick" and not replay and exe and (res.tie_failures or res.mismatches) \
+                and not any(f["key"] not in open_keys for f in res.oracle_failures) and not os.environ.get("VERIF_NO_SEARCH"):
+            t_search = time.time()
+            for k in range(1, 4):
+                rng2 = random.Random(((seed + 7919 * k) * 1000003) ^ int(hashlib.sha1(pid.encode()).hexdigest()[:8], 16))
+                try:
+                    run_groups(chk["gen"](rng2, "thorough"), with_model=False, prefix="search%d:" % k)
+                except Exception as ex:  # noqa
+                    res.tie_failures.append(("search", "search for a failing input stopped: %r" % ex))
+                    break
+                if any(f["key"] not in open_keys for f in res.oracle_failures) or time.time() - t_search > 600:
+                    break
+            res.stats["search_s"] = round(time.time() - t_search, 1)
+        # 6. verdict
         unlisted = [f for f in res.oracle_failures if f["key"] not in open_keys]
         listed = {}
         for f in res.oracle_failures:
